@@ -63,6 +63,34 @@ def identifier (isPre : Bool) (s : Str) : Option (Str × Str) :=
   if p.isEmpty then some ([], s)
   else if (splitOnDot p).all (segOk isPre) then some (p, rest) else none
 
+/-- the optional `-pre` part: `none` = error, `some (pre, rest)` -/
+def parsePre (s : Str) : Option (Str × Str) :=
+  match s with
+  | '-' :: r =>
+    match identifier true r with
+    | none => none
+    | some (pre, r) => if pre.isEmpty then none else some (pre, r)
+  | _ => some ([], s)
+
+/-- the optional `+build` part -/
+def parseBuild (s : Str) : Option (Str × Str) :=
+  match s with
+  | '+' :: r =>
+    match identifier false r with
+    | none => none
+    | some (b, r) => if b.isEmpty then none else some (b, r)
+  | _ => some ([], s)
+
+/-- what follows `major.minor.patch` -/
+def parseTail (major minor patch : Nat) (s : Str) : Option Version :=
+  match parsePre s with
+  | none => none
+  | some (pre, s) =>
+    match parseBuild s with
+    | none => none
+    | some (build, s) =>
+      if s.isEmpty then some ⟨major, minor, patch, pre, build⟩ else none
+
 /-- `impl FromStr for Version` -/
 def parseVersion (s : Str) : Option Version :=
   match numericIdent s with
@@ -79,31 +107,7 @@ def parseVersion (s : Str) : Option Version :=
   | some s =>
   match numericIdent s with
   | none => none
-  | some (patch, s) =>
-  match s with
-  | [] => some ⟨major, minor, patch, [], []⟩
-  | _ =>
-    let preR : Option (Str × Str) :=
-      match s with
-      | '-' :: r =>
-        match identifier true r with
-        | none => none
-        | some (pre, r) => if pre.isEmpty then none else some (pre, r)
-      | _ => some ([], s)
-    match preR with
-    | none => none
-    | some (pre, s) =>
-      let buildR : Option (Str × Str) :=
-        match s with
-        | '+' :: r =>
-          match identifier false r with
-          | none => none
-          | some (b, r) => if b.isEmpty then none else some (b, r)
-        | _ => some ([], s)
-      match buildR with
-      | none => none
-      | some (build, s) =>
-        if s.isEmpty then some ⟨major, minor, patch, pre, build⟩ else none
+  | some (patch, s) => parseTail major minor patch s
 
 /-! ### Ordering of build metadata (`impl Ord for BuildMetadata`) via an order-embedding
 into `List Nat` with the lexicographic order. -/
